@@ -157,6 +157,37 @@ func sortedBefore(c *Check, fn *ssa.Function, v ssa.Value, at ssa.Instruction) b
 	return false
 }
 
+// literalOrderSlice: the slice is a composite literal of this function, or appends of such literals —
+// the order of its elements does not depend on any input.
+func literalOrderSlice(v ssa.Value, depth int) bool {
+	if depth > 6 {
+		return false
+	}
+	orig := engine.Origins(v)
+	if len(orig) == 0 {
+		return false
+	}
+	for _, o := range orig {
+		switch x := o.(type) {
+		case *ssa.Slice:
+			if _, ok := x.X.(*ssa.Alloc); !ok {
+				return false
+			}
+		case *ssa.Call:
+			b, ok := x.Call.Value.(*ssa.Builtin)
+			if !ok || b.Name() != "append" || len(x.Call.Args) != 2 {
+				return false
+			}
+			if !literalOrderSlice(x.Call.Args[0], depth+1) || !literalOrderSlice(x.Call.Args[1], depth+1) {
+				return false
+			}
+		default:
+			return false
+		}
+	}
+	return true
+}
+
 func ruleR09a(c *Check) {
 	c.Rule("R09a", "in the hash-composing functions: a strings.Join whose result is hashed takes a slice sorted before it on every path; a hasher write inside a loop ranges over a slice sorted before the loop (never directly over a map); a slice filled while ranging over a map is sorted before any other use; protobuf bytes that are hashed come from MarshalOptions{Deterministic:true}; slices.Compact is only applied to sorted data", 9)
 	comp := hashComposing(c)
@@ -230,6 +261,10 @@ func ruleR09a(c *Check) {
 				continue
 			}
 			ok := sortedBefore(c, fn, r, lp.Header.Instrs[len(lp.Header.Instrs)-1])
+			if !ok && literalOrderSlice(r, 0) {
+				c.OK("R09a", key, "the slice ranged over is built from slice literals in this function: its order is fixed by the program text", c.P.InstrPos(s.Call))
+				continue
+			}
 			c.Require(ok, "R09a", key, "the slice ranged over while writing to the hasher is sorted before the loop", "elements are written to the hasher in the slice's incoming order (declaration order, or completion order of concurrent tasks) without sorting: equal states get different keys", c.P.InstrPos(s.Call))
 		}
 		// (iii) map-ordered slices
